@@ -2,6 +2,7 @@ CONSTANTS EP = {"e1", "e2", "e3"}  Prefixes = {}  Types = {}
 CONSTANT KnownDeviations = ${KnownDeviations}
 CONSTANT Focus = FALSE
 CONSTANT Strats = {"plain"}
+CONSTANT FlipFocus = FALSE
 CONSTANT DropFocus = FALSE
 CONSTANT AllowedChoices = {{}}
 SPECIFICATION TraceSpec
